@@ -233,7 +233,10 @@ def make_session(M, ch, rng, sysd, mats_shared, sid, st, reuse=None, pre_use=Fal
     s.id = sid
     s.sys = sysd
     s.life = 0 if reuse is None else reuse.life + 1
-    nt = 1 + ch.weighted([1, 1, 2, 3, 3, 3, 3, 2, 2, 1, 1, 1], "nt")
+    # 1..12 steps, occasionally a long session (anything keyed on a step count, a wrap-around, a buffer size)
+    nt = (list(range(1, 13)) + [20, 33, 64])[ch.weighted([2, 2, 4, 6, 6, 6, 6, 4, 4, 2, 2, 2, 2, 1, 1], "nt")]
+    if nt > 12:
+        st.fault("long_session")
     s.nt = nt
     n = sysd.n
     ic = ch.weighted([3, 2, 2], "ic")  # zero, d0/v0, static
@@ -541,7 +544,7 @@ def _run(M, ch, tr, st, rng):
     w_jump = [1, 0, 3][ch.draw(3, "w_jump")]
     w_addon = [2, 0, 4][ch.draw(3, "w_addon")]
     w_f2x = [1, 0, 2][ch.draw(3, "w_f2x")]
-    nops = [12, 4, 25, 40][ch.weighted([4, 2, 3, 1], "nops")]
+    nops = [12, 4, 25, 40, 90][ch.weighted([8, 4, 6, 2, 1], "nops")]
 
     same_inst = ch.flip(1, 3, "same_instance_calls")
     reuse_inst = ch.flip(1, 3, "reuse_instance")
@@ -655,7 +658,7 @@ def drive(M, ch, tr, st, rng, sessions, nops, knobs, allops):
 RULE = (
     "Each evaluation is one simulated co-simulation history: 1-2 solver sessions (SolveUnc real-uncoupled / complex-eigen / "
     "cd_as_force, SolveCDF, SolveExp2; order 0/1; rigid-body / elastic / residual-flexibility blocks in drawn order; m None/vector/"
-    "matrix; zero, d0/v0 or static initial conditions; nt 1..12) driven by a drawn sequence of advance / redo / jump-back / add-on / "
+    "matrix; zero, d0/v0 or static initial conditions; nt 1..12, occasionally 20/33/64) driven by a drawn sequence of advance / redo / jump-back / add-on / "
     "get_f2x-probe sends (open- or closed-loop forces, sender buffer reuse, interleaved sessions), drained in order and finalized; "
     "after every send d, v and the stored force history are compared with batch tsolve of the force history in effect. Non-trivial: "
     "the history contains at least one redo, jump-back or add-on. Distinct: digest of (solver kind, order, partition shape, nt, "
@@ -678,5 +681,5 @@ EXPECTED_FAULTS = [
     "redo_same_force", "redo_new_force", "jump_back_1", "jump_back_far", "addon", "addon_then_advance", "addon_then_redo",
     "redo_then_advance", "addon_order0", "buffer_reuse", "closed_loop_force", "two_sessions_interleaved", "nt_1", "rf_only",
     "rb_only", "static_ic", "complex_coefficients", "f2x_probe", "addon_twice", "instance_reused", "same_instance_tsolve",
-    "same_instance_fsolve",
+    "same_instance_fsolve", "long_session",
 ]
